@@ -9,7 +9,7 @@ from pyvc.execu import Contract, LoopSpec, register
 
 from .model import (
     ASYN, BASE, ENV_MODIFIES, GK_ALL, GK_CALL, INITIAL_ID, MATCH, SYNC, W, env_effect, kw_state, locked,
-    mstate, others_kept, prefix_kept, qarr, qh, qt, rtc, wf_world, queue_items_valid, AsyncBinding, wf_registry, dicts_kept,
+    mstate, others_kept, prefix_kept, qarr, qh, qt, rtc, wf_world, queue_items_valid, AsyncBinding, wf_registry, dicts_kept, wf_cache,
 )
 
 
@@ -53,6 +53,7 @@ class ProcessingLoop(Contract):
         f = dict(wf_world(s))
         f["self-is-engine"] = a.self.e == W.ENG
         f["registry-wf"] = wf_registry(s)
+        f["state-cache-wf"] = wf_cache(s)
         f["queue-items-valid"] = queue_items_valid(s)
         from .model import wf_class
         f.update(wf_class(s))
@@ -156,6 +157,7 @@ class ProcessingLoop(Contract):
             "log-cursors": z3.And(s.g("ntrig") >= 0, s.g("ng") >= 0, s.g("ncb") >= 0),
             "state-map-untouched": z3.And(others_kept("idict.has", s0, s, W.CACHE), others_kept("idict.val", s0, s, W.CACHE)),
             "registry-wf": wf_registry(s),
+            "state-cache-wf": wf_cache(s),
             "dicts-of-old-objects-kept": dicts_kept(s0, s),
         }
 
@@ -216,6 +218,7 @@ class Trigger(Contract):
         f.update(wf_class(s))
         f["self-is-engine"] = a.self.e == W.ENG
         f["registry-wf"] = wf_registry(s)
+        f["state-cache-wf"] = wf_cache(s)
         f["rtc-implies-lock-held"] = z3.Implies(rtc(s), locked(s))
         f.update(td_valid(s, a.trigger_data))
         return f
@@ -357,6 +360,7 @@ def queue_effect(s0, s):
         "queue:sent-log-append-only": z3.And(qt(s) >= qt(s0), prefix_kept(qarr(s0), qarr(s), qt(s0), "sl")),
         "queue:items-valid": z3.Implies(queue_items_valid(s0), queue_items_valid(s)),
         "registry-stays-wf": z3.Implies(wf_registry(s0), wf_registry(s)),
+        "state-cache-stays-wf": z3.Implies(wf_cache(s0), wf_cache(s)),
         "log-cursors": z3.And(s.g("ntrig") >= 0, s.g("ng") >= 0, s.g("ncb") >= s0.g("ncb")),
         "state-cache-only": z3.And(others_kept("idict.has", s0, s, W.CACHE), others_kept("idict.val", s0, s, W.CACHE)),
         "model-others-kept": others_kept("Model.state", s0, s, W.MODEL),
@@ -436,6 +440,7 @@ class Activate(Contract):
         f = dict(wf_world(s))
         f["self-is-engine"] = a.self.e == W.ENG
         f["registry-wf"] = wf_registry(s)
+        f["state-cache-wf"] = wf_cache(s)
         f["rtc-implies-lock-held"] = z3.Implies(rtc(s), locked(s))
         f.update(td_valid(s, a.trigger_data))
         f["transition-wf"] = wf_transition(s, a.transition.e)
@@ -584,6 +589,7 @@ class InitialTransition(Contract):
         f = dict(wf_world(s))
         f["self-is-engine"] = a.self.e == W.ENG
         f["registry-wf"] = wf_registry(s)
+        f["state-cache-wf"] = wf_cache(s)
         return f
 
     def post(self, s0, s, a, r):
